@@ -35,7 +35,7 @@ def run(tier):
         cases = [json.loads(p) for p in r.prints]
         chk.sample({"emitted_case": cases[5] if len(cases) > 5 else cases})
 
-        def spec1d(shape_seed, scale=1.0, fmax=None):
+        def spec1d(shape_seed, scale=1.0, fmax=None, grid=None):
             rr = random.Random(shape_seed)
             nf = rr.randint(12, 40)
             top = rr.uniform(0.4, 1.2)
@@ -43,12 +43,20 @@ def run(tier):
                 top = min(top, fmax)
             f = np.linspace(0.0, top, nf)
             fp, wd = rr.uniform(0.2, 0.6) * top, rr.uniform(0.05, 0.2) * top
-            E = scale * (np.exp(-((f - fp) / wd) ** 2) + 0.2 * np.array([rr.random() for _ in f]))
+            noise = np.array([rr.random() for _ in f])
+            if grid is not None:
+                # the spectrum is given on the caller's grid (e.g. exactly the Fourier grid of the series asked for): same shape, no
+                # energy above `top`
+                noise = np.interp(grid, f, noise, right=0.0)
+                f, nf = np.array(grid, dtype="float64"), len(grid)
+                E = scale * np.where(f <= top, np.exp(-((f - fp) / wd) ** 2) + 0.2 * noise, 0.0)
+            else:
+                E = scale * (np.exp(-((f - fp) / wd) ** 2) + 0.2 * noise)
             return create_1d_spectrum(f, E, 0, 0.0, 0.0, a1=np.full(nf, 0.5), b1=np.full(nf, 0.3), a2=np.zeros(nf), b2=np.zeros(nf),
                                       depth=np.inf, dims=("frequency",))
 
-        def spec2d(shape_seed, dbin, nd=12, scale=1.0, fmax=None):
-            s1 = spec1d(shape_seed, scale, fmax)
+        def spec2d(shape_seed, dbin, nd=12, scale=1.0, fmax=None, grid=None):
+            s1 = spec1d(shape_seed, scale, fmax, grid)
             d = np.arange(nd) * 360.0 / nd + 7.0
             D = np.zeros((len(s1.frequency), nd))
             D[:, dbin] = s1.variance_density.values / (360.0 / nd)
@@ -96,10 +104,12 @@ def run(tier):
             seed = rng.randrange(0, 2 ** 32)
             fmx = 0.45 * fs      # band limited below the Nyquist frequency
             dbin = [11, 0, rng.randrange(12)][j % 3]        # the last and the first direction bin are always among the cases
+            # every third spectrum is given on exactly the Fourier grid of the series (no interpolation needed inside the library)
+            ongrid = np.linspace(0, 0.5 * fs, nfft // 2 + 1) if j % 3 == 0 else None
             if kind == "1d":
-                s, theta = spec1d(j + 1000, fmax=fmx), 0.0
+                s, theta = spec1d(j + 1000, fmax=fmx, grid=ongrid), 0.0
             else:
-                s, theta = spec2d(j + 1000, dbin, fmax=fmx)
+                s, theta = spec2d(j + 1000, dbin, fmax=fmx, grid=ongrid)
             freqs = np.arange(nfft // 2 + 1) * fs / nfft
             rs = s.interpolate_frequency(freqs)
             if kind == "1d":
@@ -129,8 +139,10 @@ def run(tier):
                                   dict(ctx, component=comp, got=got, expected=exp[comp]))
                     break
             # scaling the spectrum by c scales the series by sqrt(c)
-            cst = rng.uniform(0.2, 7.0)
-            s2 = spec1d(j + 1000, cst, fmx) if kind == "1d" else spec2d(j + 1000, dbin, scale=cst, fmax=fmx)[0]
+            cst = rng.choice([rng.uniform(0.2, 7.0), 2.0 ** -20, 2.0 ** -36])      # also very small seas (exact powers of two)
+            s2 = spec1d(j + 1000, cst, fmx, ongrid) if kind == "1d" else spec2d(j + 1000, dbin, scale=cst, fmax=fmx, grid=ongrid)[0]
+            # (the reference series is made from a NEW object: asking the same object again is the subject of section 3)
+            s = spec1d(j + 1000, 1.0, fmx, ongrid) if kind == "1d" else spec2d(j + 1000, dbin, fmax=fmx, grid=ongrid)[0]
             _, za = TS.surface_timeseries("z", fs, L, s, seed=seed)
             _, zb = TS.surface_timeseries("z", fs, L, s2, seed=seed)
             evals += 2
@@ -143,11 +155,15 @@ def run(tier):
         recs = {}
         keys = [("z", 2.5, 64, 1), ("w", 1.0, 33, 2), ("x", 10.0, 100, 3), ("z", 0.5, 9, 1)]
         seeds = [0, 1, 7, 2 ** 32 - 1, 123456789]
+        held = {}
         with open(path, "w") as fp:
             for j in range(60 if quick else 600):
                 comp, fs, L, sid = rng.choice(keys)
                 seed = rng.choice(seeds)
-                s = spec1d(sid) if sid != 3 else spec2d(3, 4)[0]
+                # the SAME spectrum object is asked again and again (sid 3: a 2D spectrum on exactly the Fourier grid of its series)
+                if sid not in held:
+                    held[sid] = spec1d(sid) if sid != 3 else spec2d(3, 4, fmax=4.5, grid=np.linspace(0, 5.0, 51))[0]
+                s = held[sid]
                 t, x = TS.surface_timeseries(comp, fs, L, s, seed=seed)
                 evals += 1
                 rec = {"id": j, "key": "%s|%s|%s|%s" % (comp, fs, L, sid), "seed": str(seed), "L": L, "n": int(len(x)), "nt": int(len(t)),
